@@ -155,7 +155,7 @@ static int step(int e)
     case E_TRIG2: if (!TT) return MC_SKIP; COTPdoTrigPdo(Node.TPdo, 2); break;
     default: break;
     }
-    (void)CONodeGetErr(&Node);
+    nc_poll();                   
     (void)CONmtGetHbEvents(&Node.Nmt, 9);          /* the application reads (and clears) the consumer event counter */
     if (M.stopped) return MC_OK;
     /* ---- compare ---- */
